@@ -280,7 +280,11 @@ fn fill_body(rng: &mut Rng, n: usize) -> Vec<u8> {
             v
         },
         0 => vec![0u8; n],
-        1 => (0..n).map(|_| rng.below(4) as u8).collect(),
+        1 => {
+            // enumerant-sized values: most enum-typed fields have fewer than a dozen variants
+            let top = *rng.pick(&[4u64, 8, 12, 32]);
+            (0..n).map(|_| rng.below(top) as u8).collect()
+        },
         2 => {
             let mut v = vec![0u8; n];
             for _ in 0..rng.usize(1, 6) {
